@@ -115,7 +115,9 @@ claim("C05", "other",
 claim("C11", "other",
       "Proof: HvsrAzimuthal._compute_statistical_weights returns, in azimuth-major order, the weight 1/(A n_a) for each of the n_a accepted "
       "windows of azimuth a, for any number of azimuths and windows (loop invariant over ghost prefix sums OFF(a); np.sum of a mask is the "
-      "ghost count of the object); the algebraic steps 'n_a weights of 1/(A n_a) sum to 1/A' and 'A = 1 gives the n-1 denominator'. "
+      "ghost count of the object); the algebraic steps 'n_a weights of 1/(A n_a) sum to 1/A' and 'A = 1 gives the n-1 denominator'; "
+      "mean_curve_by_azimuth and mean_curve_peak_by_azimuth return, for every number of azimuths, row / entry a = the mean curve / mean-curve "
+      "peak of hvsrs[a] for the distribution asked for (per-azimuth accessors opaque: C05 / C08). "
       "Cross-check / bounded (labelled): every azimuthal statistic (means, Cheng standard deviations with 1 - sum w^2, weighted covariance "
       "and its diagonal = std^2, mean / std / nth-std curves, per-azimuth mean curves, mean-curve peak) against independent weighted "
       "estimators over mask histories incl. redistributing accepted windows between azimuths, azimuth-order independence, single-azimuth "
